@@ -298,6 +298,7 @@ strsplit_iter_next (StrSplitIter  *iter,
   else
     {
       g_string_overwrite_len (&iter->buf, 0, s, (gssize)len);
+      g_string_truncate (&iter->buf, len);
       *out_val = iter->buf.str;
     }
   return TRUE;
